@@ -121,3 +121,81 @@ Proof.
         exists s. rewrite Es. specialize (Hlt k ltac:(lia)).
         rewrite D by lia. rewrite (F1 (nth k reqs 0)) by lia. reflexivity.
 Qed.
+
+(* ---------------------------------------------------------------- the walk with a non-negative slack *)
+Lemma skip_lt_len l rest : zlen (skip_lt l rest) <= zlen rest.
+Proof.
+  unfold zlen. induction rest as [|r t IH]; cbn [skip_lt]; [lia|].
+  destruct (r_v r <? l); cbn [length] in *; lia.
+Qed.
+
+Section WalkNonneg.
+  Variables (m ml : Z) (Good : list pt -> Prop).
+  (* premise: on good pixel lists the kernel's output fits into the label's own rows *)
+  Hypothesis NoOv : forall pts slack, Good pts -> 0 <= slack ->
+    zlen (hull_label m pts slack) <= slack + zlen pts.
+
+  Lemma walk_blocks_nonneg : forall reqs rest pix out,
+    sorted_v rest -> StronglySorted Z.lt reqs -> (forall x, In x rest -> r_v x <= ml) ->
+    out <= pix ->
+    (forall k, (k < length reqs)%nat -> Good (map r_pt (sel (nth k reqs 0) rest))) ->
+    forall k, (k < length reqs)%nat ->
+    exists slack, 0 <= slack /\
+      nth_block (walk m ml reqs rest pix out) k = hull_label m (map r_pt (sel (nth k reqs 0) rest)) slack.
+  Proof.
+    induction reqs as [|l reqs IH]; intros rest pix out HS HR HM Hop HG k Hk; [cbn in Hk; lia|].
+    assert (HR' : StronglySorted Z.lt reqs) by (inversion HR; assumption).
+    assert (Hlt : forall k', (k' < length reqs)%nat -> l < nth k' reqs 0).
+    { intros k' Hk'. inversion HR as [|a r0 _ HF]. subst. rewrite Forall_forall in HF.
+      apply HF. apply nth_In. exact Hk'. }
+    cbn [walk].
+    set (rest1 := if l <=? ml then skip_lt l rest else rest).
+    assert (P1 : sorted_v rest1 /\ incl rest1 rest /\ (forall l', l <= l' -> sel l' rest1 = sel l' rest)
+                 /\ ((forall x, In x rest1 -> l <= r_v x) \/ (forall x, In x rest1 -> r_v x < l))
+                 /\ zlen rest1 <= zlen rest).
+    { unfold rest1. destruct (l <=? ml) eqn:E.
+      - destruct (skip_lt_spec l rest HS) as [A [B [C D]]]. pose proof (skip_lt_len l rest). repeat split; auto.
+      - repeat split; auto; try lia. { apply incl_refl. } right. intros x Hx. specialize (HM x Hx). lia. }
+    destruct P1 as [S1 [I1 [F1 [B1 Len1]]]].
+    assert (HM1 : forall x, In x rest1 -> r_v x <= ml) by (intros x Hx; apply HM; apply I1; exact Hx).
+    assert (HG1 : forall k', (k' < length reqs)%nat -> Good (map r_pt (sel (nth k' reqs 0) rest1))).
+    { intros k' Hk'. rewrite F1 by (specialize (Hlt k' Hk'); lia). apply (HG (S k')). cbn [length]. lia. }
+    set (pix1 := pix + (zlen rest - zlen rest1)). assert (Hp1 : out <= pix1) by (unfold pix1; lia).
+    clearbody pix1.
+    destruct rest1 as [|r t] eqn:ER.
+    - destruct k as [|k].
+      + rewrite nth_block_0. cbn [fst snd nth]. exists 0. split; [lia|].
+        rewrite <- (F1 l) by lia. reflexivity.
+      + rewrite nth_block_S. cbn [nth]. cbn [length] in Hk.
+        destruct (IH [] pix1 out S1 HR' HM1 Hp1 HG1 k ltac:(lia)) as [s [Hs Es]]. exists s. split; [exact Hs|]. rewrite Es.
+        rewrite <- (F1 (nth k reqs 0)); [reflexivity|]. specialize (Hlt k ltac:(lia)). lia.
+    - destruct (negb (l =? r_v r)) eqn:EN.
+      + assert (Hnone : sel l (r :: t) = []).
+        { apply sel_none. intros x Hx. destruct B1 as [B1|B1].
+          - pose proof (sorted_v_head _ _ _ S1 Hx). specialize (B1 r ltac:(left; reflexivity)). lia.
+          - specialize (B1 x Hx). lia. }
+        destruct k as [|k].
+        * rewrite nth_block_0. cbn [fst snd nth]. exists 0. split; [lia|]. rewrite <- (F1 l) by lia. rewrite Hnone. reflexivity.
+        * rewrite nth_block_S. cbn [nth]. cbn [length] in Hk.
+          destruct (IH (r :: t) pix1 out S1 HR' HM1 Hp1 HG1 k ltac:(lia)) as [s [Hs Es]]. exists s. split; [exact Hs|]. rewrite Es.
+          rewrite <- (F1 (nth k reqs 0)); [reflexivity|]. specialize (Hlt k ltac:(lia)). lia.
+      + assert (B1' : forall x, In x (r :: t) -> l <= r_v x).
+        { destruct B1 as [B1|B1]; auto. specialize (B1 r ltac:(left; reflexivity)). lia. }
+        destruct (span_eq_spec l (r :: t) S1 B1') as [A [B [C D]]].
+        destruct (span_eq l (r :: t)) as [blk rest2]. cbn [fst snd] in A, B, C, D.
+        assert (Gblk : Good (map r_pt blk)).
+        { rewrite A. rewrite (F1 l) by lia. apply (HG 0%nat). cbn [length]. lia. }
+        destruct k as [|k].
+        * rewrite nth_block_0. cbn [fst snd nth]. exists (pix1 - out). split; [lia|]. rewrite A. rewrite (F1 l) by lia. reflexivity.
+        * rewrite nth_block_S. cbn [nth]. cbn [length] in Hk.
+          assert (HM2 : forall x, In x rest2 -> r_v x <= ml) by (intros x Hx; apply HM1; apply C; exact Hx).
+          assert (HG2 : forall k', (k' < length reqs)%nat -> Good (map r_pt (sel (nth k' reqs 0) rest2))).
+          { intros k' Hk'. rewrite D by (specialize (Hlt k' Hk'); lia). apply HG1. exact Hk'. }
+          assert (Hop2 : out + zlen (hull_label m (map r_pt blk) (pix1 - out)) <= pix1 + zlen blk).
+          { pose proof (NoOv (map r_pt blk) (pix1 - out) Gblk ltac:(lia)) as N.
+            unfold zlen in N |- *. rewrite map_length in N. lia. }
+          destruct (IH rest2 (pix1 + zlen blk) (out + zlen (hull_label m (map r_pt blk) (pix1 - out))) B HR' HM2 Hop2 HG2 k ltac:(lia)) as [s [Hs Es]].
+          exists s. split; [exact Hs|]. rewrite Es. specialize (Hlt k ltac:(lia)).
+          rewrite D by lia. rewrite (F1 (nth k reqs 0)) by lia. reflexivity.
+  Qed.
+End WalkNonneg.
